@@ -88,11 +88,8 @@ type ClientConn struct {
 	vanished       bool
 	bytesOut       int // bytes queued so far
 	headLeft       int // bytewise deliveries left (Frag 2)
-	scrapeNamed    int // number of named tasks when this scrape's request was fully delivered (-1: not yet)
-	scrapeProves   int
-	scrapeInFlight int
-	scrapeRunnable bool
-	scrapeBlocked  bool
+	scrapeBlocked  bool   // set by the priority-scrape phase
+	blockedWhy     string
 	// AfterOthers: not dialled before every other connection without this flag has settled.
 	AfterOthers bool
 	Delivered   int   // client->server bytes delivered so far
@@ -155,6 +152,11 @@ type World struct {
 	RefusedOK  bool
 	Scrapes    []Scrape
 	LateDialOK bool
+	// PrioScrape k > 0: the k-th time the scheduler finds a task parked in front of the Groth16 prover call,
+	// a scrape is made with priority over every proof computation (see priorityScrape). 0: never.
+	PrioScrape int
+	prioSeen   int
+	prioDone   bool
 }
 
 type TimeJump struct {
@@ -163,9 +165,11 @@ type TimeJump struct {
 }
 
 type Scrape struct {
-	// BlockedBehindProof: the scrape was delivered while a proof was in flight, its handler was never
-	// runnable (blocked on a lock or without reaching any yield), and a prove request completed first.
+	// BlockedBehindProof: this scrape was made in the priority phase (see priorityScrape): its request had
+	// been delivered and accepted, every task not about to compute a proof had run until none was
+	// enabled, five seconds of fake time had passed, and it still had no answer.
 	BlockedBehindProof bool
+	BlockedWhy         string
 	Cycle              int
 	Step               int
 	Totals             map[string]float64 // "method/code" -> value for endpoint_pattern="/prove"
@@ -179,7 +183,6 @@ type Scrape struct {
 
 func (w *World) AddConn(c *ClientConn) *ClientConn {
 	c.ID = len(w.Conns)
-	c.scrapeNamed = -1
 	if c.CutAt == 0 && c.Vanish == 0 {
 		c.CutAt = -1
 	}
@@ -503,11 +506,6 @@ func (w *World) netActions() []Action {
 				n = 1 + w.Sim.T.Draw(pend)
 			}
 			c.Delivered += c.conn.Deliver(0, n, false)
-			if len(c.Reqs) == 1 && c.Reqs[0].Metrics && c.Delivered >= c.bytesOut && c.scrapeNamed < 0 {
-				c.scrapeNamed = w.Sim.NamedCount()
-				c.scrapeProves = w.provesAnswered()
-				c.scrapeInFlight = w.Begun(false) - w.provesAnswered()
-			}
 			if n < pend {
 				w.Sim.S.Count("fault:net/fragmented-delivery")
 			}
@@ -517,33 +515,11 @@ func (w *World) netActions() []Action {
 }
 
 // afterStep moves server->client bytes and parses complete responses.
-func (w *World) provesAnswered() int {
-	n := 0
-	for _, r := range w.reqs {
-		if !r.Metrics && r.Resp != nil && r.Cycle == w.curCycle() {
-			n++
-		}
-	}
-	return n
-}
-
 func (w *World) afterStep() {
 	w.Sim.settle()
 	for _, c := range w.Conns {
 		if c.conn == nil {
 			continue
-		}
-		// availability: an outstanding scrape whose handler has never been runnable
-		if c.scrapeNamed >= 0 && c.got == 0 && !c.closed && !c.vanished && c.scrapeInFlight > 0 && c.conn.Accepted() {
-			if n, _ := c.conn.Pending(1); n == 0 {
-				newTasks, allLockWait := w.Sim.TasksSince(c.scrapeNamed)
-				if newTasks > 0 && !allLockWait {
-					c.scrapeRunnable = true
-				}
-				if !c.scrapeRunnable && w.provesAnswered() > c.scrapeProves {
-					c.scrapeBlocked = true
-				}
-			}
 		}
 		if n, fin := c.conn.Pending(1); n > 0 || fin {
 			c.conn.Deliver(1, n, true)
@@ -642,6 +618,7 @@ func (w *World) Run(mode string) {
 				w.afterStep()
 			}
 		}
+		w.maybePriorityScrape()
 		progressed := s.StepOnce()
 		w.afterStep()
 		if w.finished() {
@@ -704,6 +681,105 @@ func (w *World) Run(mode string) {
 	s.S.Step(int64(s.Step))
 }
 
+// --- availability of the metrics endpoint while proofs are computed ---------------------------------
+
+func atProve(t *Task) bool { return strings.HasSuffix(t.Site, "#prove") }
+
+func (w *World) maybePriorityScrape() {
+	if w.PrioScrape <= 0 || w.prioDone || w.op.stopSent || !w.op.running.Load() || w.op.finished.Load() {
+		return
+	}
+	w.Sim.settle()
+	if !w.Sim.Net.Bound(MetricsAddr) {
+		return
+	}
+	n := 0
+	for _, t := range w.Sim.parkedTasks() {
+		if atProve(t) {
+			n++
+		}
+	}
+	if n == 0 {
+		return
+	}
+	w.prioSeen++
+	if w.prioSeen < w.PrioScrape {
+		return
+	}
+	w.prioDone = true
+	w.priorityScrape()
+}
+
+// priorityScrape decides "the metrics endpoint answers also while proofs are being computed" without
+// any notion of how long a step takes: with at least one task parked in front of the Groth16 prover
+// call, a scrape is dialled and delivered, and from then on the scheduler runs only tasks that are NOT
+// about to compute a proof (so that every short critical section a handler may be inside is left),
+// suppresses all other client, network and operator activity, and, when nothing of that kind is
+// enabled any more, lets five seconds of fake time pass. If the scrape is still unanswered then, it can
+// only be answered after a proof computation has run: that is the violation. Nothing is concluded
+// when the dial is refused, the connection is not accepted, or the step budget of the phase runs out.
+func (w *World) priorityScrape() {
+	s := w.Sim
+	s.S.Count("probe:priority_scrape_with_a_task_about_to_compute_a_proof")
+	c := w.AddConn(&ClientConn{Addr: MetricsAddr, Reqs: []*Request{MetricsScrape()}, CutAt: -1, Cycle: w.curCycle()})
+	s.Log.Addf("sched", "prio-scrape", "dial and deliver")
+	w.dial(c)
+	if c.refused {
+		return
+	}
+	if n, _ := c.conn.Pending(0); n > 0 {
+		c.Delivered += c.conn.Deliver(0, n, false)
+	}
+	timeAdv := 0
+	for i := 0; i < 600; i++ {
+		w.afterStep()
+		if c.got > 0 || c.closed || c.vanished {
+			if i == 0 {
+				s.S.Count("probe:priority_scrape_answered_without_any_task_running")
+			}
+			return
+		}
+		var rest, prove []*Task
+		for _, t := range s.parkedTasks() {
+			if atProve(t) {
+				prove = append(prove, t)
+			} else {
+				rest = append(rest, t)
+			}
+		}
+		if len(rest) > 0 {
+			t := rest[s.T.Pick(len(rest))]
+			s.Step++
+			s.Log.Addf("sched", "prio:"+t.Name, "run %s @%s", t.Name, t.Site)
+			s.releaseTask(t)
+			continue
+		}
+		if timeAdv < 5 {
+			timeAdv++
+			s.AdvanceTime(time.Second)
+			s.S.Sim(1)
+			continue
+		}
+		if len(prove) > 0 && c.conn.Accepted() {
+			var at, waiting []string
+			for _, t := range prove {
+				at = append(at, t.Name+"@"+t.Site)
+			}
+			s.mu.Lock()
+			for _, t := range s.named {
+				if t.parked && t.lockWait {
+					waiting = append(waiting, t.Name+"@"+t.Site)
+				}
+			}
+			s.mu.Unlock()
+			c.scrapeBlocked = true
+			c.blockedWhy = fmt.Sprintf("tasks in front of the prover call: %v; tasks waiting for a mutex: %v", at, waiting)
+			s.Log.Addf("sched", "prio-scrape", "blocked")
+		}
+		return
+	}
+}
+
 // --- metrics ------------------------------------------------------------------------------
 
 // ParseMetrics extracts the /prove request counters and in-flight gauge from a text exposition.
@@ -750,13 +826,13 @@ func splitMetric(ln string) (map[string]string, float64) {
 }
 
 func (w *World) noteScrape(r *Request) {
-	blocked := false
+	blocked, why := false, ""
 	for _, c := range w.Conns {
 		if len(c.Reqs) == 1 && c.Reqs[0] == r {
-			blocked = c.scrapeBlocked
+			blocked, why = c.scrapeBlocked, c.blockedWhy
 		}
 	}
-	sc := Scrape{BlockedBehindProof: blocked, Cycle: r.Cycle, Step: w.Sim.Step, SentLo: map[string]int{}, Begun: w.Begun(false)}
+	sc := Scrape{BlockedBehindProof: blocked, BlockedWhy: why, Cycle: r.Cycle, Step: w.Sim.Step, SentLo: map[string]int{}, Begun: w.Begun(false)}
 	for _, q := range w.reqs {
 		if !q.Metrics && q.Resp != nil && q.Cycle == r.Cycle {
 			sc.SentLo[MethodLabel(q.Method)+"/"+strconv.Itoa(q.Resp.Status)]++
